@@ -2,4 +2,4 @@
 # Build the Coq development, extract the model, build the OCaml driver. Offline, from files on disk only.
 set -e
 cd "$(dirname "$0")"
-exec ./build.sh
+./build.sh && tools/build_props.sh
